@@ -498,6 +498,10 @@ func (c *wiComp) Run(args []string) string {
 	case args[0] == "ingest" && len(args) == 6:
 		now, _ := strconv.ParseInt(args[4], 10, 64)
 		return wiIngest(args[1], decStr(args[2]), args[3], now, rxParseResps(args[5]))
+	case args[0] == "conc" && len(args) == 3:
+		seed, _ := strconv.ParseInt(args[1], 10, 64)
+		rounds, _ := strconv.Atoi(args[2])
+		return wiConc(seed, rounds) // wi_conc.go
 	case args[0] == "opt" && len(args) == 3:
 		mask, _ := strconv.Atoi(args[1])
 		return wiOpt(mask, rxParseResps(args[2]))
@@ -685,6 +689,7 @@ func (c *wiComp) Exhaustive(tier string) [][]string {
 			}
 		}
 	}
+	ops = append(ops, "conc 1 3", "conc 2 3") // RPCs of several peers at once on one server with statistics (wi_conc.go)
 	// every subset of the optional callbacks x streams reaching every call site
 	for mask := 0; mask < 16; mask++ {
 		for _, resps := range []string{"-", "S1", "U" + notis[3], "E1", "Z", "S1&U" + notis[3] + "&E1&Z&U" + notis[5] + "&S0"} {
